@@ -1,7 +1,9 @@
 //! Shared verification infrastructure (see /verif/DESIGN.md §2).
+pub mod corpus;
 pub mod explore;
 pub mod peer;
 pub mod report;
 pub mod runner;
 pub mod tape;
+pub mod util;
 pub mod vpipe;
